@@ -19,8 +19,9 @@ def seeded(ctx, rng, n):
     for k in range(n):
         solver = ["bisection", "brent", "itp"][k % 3]
         shift = rng.choice([0.0, 0.0, rng.uniform(-5, 5), 1000.0, -1000.0])
-        sg = rng.choice([1.0, -1.0])
-        kind = rng.choice(["poly", "poly", "exp", "sin", "flat"])
+        # sign and magnitude of the function: tiny / huge amplitudes make products of two values under/overflow
+        sg = rng.choice([1.0, -1.0]) * rng.choice([1.0, 1.0, 1.0, 1e-170, 1e-200, 1e160])
+        kind = rng.choice(["poly", "poly", "exp", "sin", "flat", "flat"])
         if kind == "poly":
             m = rng.randint(1, 4)
             rs = sorted(set(round(shift + rng.uniform(-3, 3), 3) for _ in range(m)))
@@ -46,7 +47,7 @@ def seeded(ctx, rng, n):
             a, b = root - rng.uniform(0.1, 0.9) * math.pi / w, root + rng.uniform(0.1, 0.9) * math.pi / w
         else:
             r = shift + rng.uniform(-2, 2)
-            f = {"k": "flat", "p": [fp(sg), fp(r), fp(float(rng.choice([3, 5])))]}
+            f = {"k": "flat", "p": [fp(sg if abs(sg) <= 1.0 else math.copysign(1.0, sg)), fp(r), fp(float(rng.choice([3, 5, 9, 21])))]}
             a, b = r - rng.uniform(0.1, 2), r + rng.uniform(0.1, 2)
         mode = rng.random()
         if mode < 0.15:           # same-sign ends: both on one side of the root(s)
